@@ -85,6 +85,15 @@ const BOUNDARY_LINES: &[&str] = &[
     "A = \"x\"",
     "PRINT A$(1) + 1",
     "RESTORE : READ A",
+    // numerals that are not ASCII digits where a line number is expected
+    "20² PRINT 2",
+    "10½ X = 1",
+    "²",
+    "１０ PRINT 1",
+    "   ١ GOTO 10",
+    "1２3 REM",
+    "٣٣",
+    "5\u{00b9}0 END",
     // every way a DEF can be malformed
     "DEF",
     "DEF 5",
@@ -356,6 +365,25 @@ pub fn c01_cases(rng: &mut Rng, tier: &str) -> (Vec<Case>, bool) {
             cases.push(case_from(w, vec!["err-then-idle".into()], "impl-only:operator-chain".into(), true, format!("{} with 200000 x {:?}", stmt, op)));
         }
     }
+    // nesting that passes through a user-function call (argument and body), around the cap
+    for k in [40usize, 45, 46, 47, 48, 49] {
+        for m in [0usize, 1, 2, 10, 600] {
+            for body in ["X", "(((X)))"] {
+                let mut w = Walk::new(false, false);
+                w.start(&format!("10 DEF FNA(X) = {}", body));
+                w.start("RUN");
+                let mut nr = 0;
+                w.drive(&[], &mut nr, 5, false);
+                let text = format!("PRINT {}FNA({}1{}){}", "(".repeat(k), "(".repeat(m), ")".repeat(m), ")".repeat(k));
+                w.start(&text);
+                w.op("take");
+                w.op("snap");
+                w.start("PRINT 7");
+                w.op("take");
+                cases.push(case_from(w, vec!["err-then-idle".into(), "snap-caps".into()], "nesting-through-call".into(), true, format!("{} parens, FNA, {} parens, body {}", k, m, body)));
+            }
+        }
+    }
     // every boundary line on its own, from a fresh interpreter and after a program
     for b in BOUNDARY_LINES {
         let mut w = Walk::new(true, true);
@@ -457,9 +485,11 @@ pub fn c10_cases(rng: &mut Rng, tier: &str) -> (Vec<Case>, bool) {
         &["10 GOTO 30", "20 DIM P(50) : P(40) = 4 : X = 9 : A$ = \"kept\" : END", "30 PRINT P(4); X; A$"],
         &["10 GOTO 30", "20 FOR I = 1 TO 3 : GOSUB 900", "30 PRINT I : NEXT I", "900 STOP"],
         &["10 GOTO 40", "20 DATA 1, 2, 3", "30 READ A : END", "40 READ B : PRINT B"],
+        &["10 READ A : PRINT A", "20 DATA 1", "30 DATA 2", "40 READ B : PRINT B"],
+        &["10 DATA 7", "20 READ A : PRINT A", "30 READ B : PRINT B"],
     ];
     for k in 0..n {
-        let p = if k % 5 == 4 {
+        let mut p = if k % 5 == 4 {
             let lines = rng.pick(shaped);
             Program { lines: lines.iter().map(|l| { let (n, t) = l.split_once(' ').unwrap(); (n.parse().unwrap(), t.to_string()) }).collect(), features: vec!["shaped"] }
         } else {
@@ -483,6 +513,18 @@ pub fn c10_cases(rng: &mut Rng, tier: &str) -> (Vec<Case>, bool) {
             } else {
                 for t in ["A = 5", "N$ = \"x\"", "DIM B(3)", "B(2) = 9"] {
                     w.start(t);
+                }
+            }
+            // a READ has happened by now (or not); deleting a DATA line afterwards must be seen by the next RUN
+            if let Some(i) = p.lines.iter().position(|l| l.1.starts_with("DATA")) {
+                if rng.chance(2, 3) {
+                    w.start("RUN");
+                    let mut nr = 0;
+                    w.drive(&replies, &mut nr, 30, false);
+                    let n = p.lines[i].0;
+                    w.start(&format!("{}", n));
+                    p.lines.remove(i);
+                    kinds.push("delete-data-line");
                 }
             }
         }
@@ -552,6 +594,22 @@ pub fn c10_cases(rng: &mut Rng, tier: &str) -> (Vec<Case>, bool) {
                     if st == "Running" || st == "AwaitingInput" {
                         w.op("break");
                         kinds.push("break");
+                    }
+                }
+                8 if !p.lines.is_empty() && rng.chance(1, 2) => {
+                    // an edit (after whatever ran before): delete a line, or replace it; the fresh interpreter gets the edited program
+                    let i = rng.below(p.lines.len());
+                    let n = p.lines[i].0;
+                    let is_data = p.lines[i].1.contains("DATA");
+                    if rng.chance(1, 2) || is_data {
+                        w.start(&format!("{}", n));
+                        p.lines.remove(i);
+                        kinds.push(if is_data { "delete-data-line" } else { "delete-line" });
+                    } else {
+                        let t = rng.pick(&["PRINT 0", "DATA 77, 88", "REM"]).to_string();
+                        w.start(&format!("{} {}", n, t));
+                        p.lines[i].1 = t;
+                        kinds.push("replace-line");
                     }
                 }
                 6 if !p.lines.is_empty() => {
@@ -627,7 +685,13 @@ pub fn c11_cases(rng: &mut Rng, tier: &str) -> (Vec<Case>, bool) {
         let mut p = program(rng, &opts);
         // give it things to be in the middle of
         p.lines.insert(0, (1, "DEF FNZ(Q) = Q + 1000".to_string()));
-        p.lines.insert(1, (2, "DATA 111, 222, 333".to_string()));
+        let no_data = rng.chance(1, 6);
+        if !no_data {
+            p.lines.insert(1, (2, "DATA 111, 222, 333".to_string()));
+        } else {
+            // no DATA anywhere: the READ of line 3 ends the run with OUT OF DATA; an edit may then add the first DATA line
+            p.lines.retain(|l| !l.1.contains("DATA"));
+        }
         p.lines.insert(2, (3, "READ D1 : ZZ = 42 : Z$ = \"kept\" : ZA(3) = 7".to_string()));
         p.lines.insert(3, (4, "FOR L9 = 1 TO 3 : GOSUB 950".to_string()));
         p.lines.push((940, "END".to_string()));
@@ -696,7 +760,7 @@ pub fn c11_cases(rng: &mut Rng, tier: &str) -> (Vec<Case>, bool) {
         w.op("take");
         w.op("snap");
         // the edit
-        let edit_kind = rng.below(5);
+        let edit_kind = if no_data && rng.chance(2, 3) { 3 } else { rng.below(5) };
         let (edit, ok) = match edit_kind {
             0 => ("5 REM added".to_string(), true),
             1 => (format!("{} PRINT \"replaced\"", p.lines[rng.below(p.lines.len())].0), true),
@@ -717,7 +781,7 @@ pub fn c11_cases(rng: &mut Rng, tier: &str) -> (Vec<Case>, bool) {
         let kept_idx = w.last();
         let ran_line3 = w.replies.iter().any(|_| true);
         let _ = ran_line3;
-        let probe = if direct == 1 && rng.chance(1, 2) { 7 } else if direct == 2 && rng.chance(1, 2) { 8 } else { rng.below(7) };
+        let probe = if direct == 1 && rng.chance(1, 2) { 7 } else if direct == 2 && rng.chance(1, 2) { 8 } else if no_data && rng.chance(2, 3) { 3 } else { rng.below(7) };
         let probe_text = match probe {
             0 => "CONT",
             1 => "RETURN",
@@ -796,6 +860,40 @@ pub fn c11_cases(rng: &mut Rng, tier: &str) -> (Vec<Case>, bool) {
         w.op("snap");
         let tag = format!("{}:{}:{}", how, ["add", "replace", "delete", "data", "failed"][edit_kind], probe_text.split(' ').next().unwrap());
         cases.push(case_from(w, checks, tag, true, format!("{} || edit {:?} || probe {}", p.text().replace('\n', " | "), edit, probe_text)));
+    }
+    // a program that ended on its own (END / last line / an error), leaving nothing behind but what DEF, DIM and
+    // assignments did: no breakpoint, no open loop, no subroutine, no DATA cursor.  An edit still forgets the functions.
+    for body in [&["1 DEF FNZ(Q) = Q + 1000", "2 PRINT FNZ(1)", "3 END"][..], &["1 DEF FNZ(Q) = Q + 1000", "2 PRINT FNZ(1)"][..], &["1 DEF FNZ(Q) = Q + 1000", "2 X = 1 / 0"][..], &["1 DEF FNZ(Q) = Q + 1000", "2 FOR I = 1 TO 2 : NEXT I", "3 GOSUB 5", "4 END", "5 RETURN"][..]] {
+        for edit in ["9 REM added", "1 DEF FNZ(Q) = 5", "1", "2 PRINT 2", "2"] {
+            for probe in ["PRINT FNZ(1)", "PRINT FNZ(1) + FNZ(2)", "X = FNZ(3) : PRINT X"] {
+                let mut w = Walk::new(false, false);
+                for l in body.iter() {
+                    w.start(l);
+                }
+                w.start("RUN");
+                let mut nr = 0;
+                w.drive(&[], &mut nr, 40, false);
+                w.op("take");
+                w.op("snap");
+                w.start(edit);
+                w.op("snap");
+                let si = w.last();
+                w.start(probe);
+                let mut nr = 0;
+                w.drive(&[], &mut nr, 10, false);
+                // drive takes output along the way: collect what was printed after the edit
+                let printed: Vec<String> = (si + 1..w.ops.len()).filter(|&i| w.ops[i] == "take").map(|i| w.replies[i].clone()).filter(|r| r != "-").collect();
+                let want = if probe.contains('+') { "0\n" } else { "0\n" };
+                let ti = (si + 1..w.ops.len()).find(|&i| w.ops[i] == "take" && w.replies[i] != "-");
+                let mut checks = vec![format!("snap-after-edit-clean {}", si)];
+                match ti {
+                    Some(i) => checks.push(format!("reply-is {} P:{}", i, crate::imp::hex(want))),
+                    None => checks.push(format!("take-has {} P", w.last())),
+                }
+                let _ = printed;
+                cases.push(case_from(w, checks, "ended-program:edit:fn".into(), true, format!("{} || edit {:?} || probe {}", body.join(" | "), edit, probe)));
+            }
+        }
     }
     (cases, false)
 }
@@ -1183,6 +1281,37 @@ pub fn c08_cases(rng: &mut Rng, tier: &str) -> (Vec<Case>, bool) {
         kinds.sort();
         kinds.dedup();
         cases.push(case_from(w, checks, kinds.join("+"), true, text.replace('\n', " | ")));
+    }
+    // a reply handed over but never consumed (the host broke in first) is not an answer to a LATER request:
+    // after RUN / after the interrupted program is continued the INPUT asks (again) and reports that it awaits input
+    for prog in ["10 INPUT A : PRINT \"got\"; A", "10 PRINT \"x\" : INPUT A$ : PRINT A$", "10 IF 1 THEN INPUT A\n20 PRINT A"] {
+        // (only RUN: a pending reply must survive a break for CONT, and what an immediate GOTO / INPUT typed at the
+        // breakpoint does with it is not something the property speaks about)
+        for then in ["RUN"] {
+            let mut w = Walk::new(false, false);
+            for l in prog.split('\n') {
+                w.start(l);
+            }
+            w.start("RUN");
+            let mut guard = 0;
+            while w.state() == "Running" && guard < 10 {
+                w.op("cont");
+                guard += 1;
+            }
+            w.reply("7");
+            w.op("break");
+            w.op("take");
+            w.start(then);
+            let mut guard = 0;
+            while w.state() == "Running" && guard < 10 {
+                w.op("cont");
+                guard += 1;
+            }
+            let si = w.last();
+            w.op("take");
+            w.op("snap");
+            cases.push(case_from(w, vec![format!("reply-is {} AwaitingInput", si), "no-syntax-error".to_string()], "stale-reply".into(), true, format!("{} | RUN, reply, break, {}", prog.replace('\n', " | "), then)));
+        }
     }
     // INPUT with a suitable reply == the same program with the assignment of that value in its place
     let equiv: &[&str] = &[
